@@ -30,7 +30,7 @@ type Case struct {
 	Leaf string   `json:"leaf"`
 	Vals []string `json:"vals"` // one value for a leaf, 1..3 for a leaf-list
 	Vals2 []string `json:"vals2,omitempty"` // second value (equality law)
-	In   string   `json:"in"`   // typed | string | json | json_ietf | xml | gnmi
+	In   string   `json:"in"`   // typed | string | json | json_ietf | xml | gnmi | gnmi-ascii
 	Mode string   `json:"mode"` // pure | pipeline | equal
 	Pad  bool     `json:"pad,omitempty"` // decimal64: lexical form with trailing zeros
 }
@@ -135,7 +135,7 @@ func gen(t *rapid.T) *Case {
 	c.Mode = rapid.SampledFrom([]string{"pure", "pure", "pipeline", "equal"}).Draw(t, "mode")
 	switch c.Mode {
 	case "pure":
-		c.In = rapid.SampledFrom([]string{"typed", "string", "xml", "gnmi"}).Draw(t, "in")
+		c.In = rapid.SampledFrom([]string{"typed", "string", "xml", "gnmi", "gnmi-ascii"}).Draw(t, "in")
 	case "pipeline":
 		c.In = rapid.SampledFrom([]string{"typed", "string", "json", "json_ietf"}).Draw(t, "in")
 	case "equal":
@@ -443,6 +443,22 @@ func execPure(ctx context.Context, n *vlib.Node, c *Case) *vlib.Failure {
 			return vlib.Failf(sig("xmltext-refused", n, c), "utils.Convert(%q) for leaf %s: %v", lex(n, c.Vals[0], c.Pad), n.Name, err)
 		}
 		stored = out
+	case "gnmi-ascii":
+		// a target using the ASCII encoding reports every value as ascii_val holding the lexical form
+		if n.Kind == vlib.KLeafList || n.Type == "empty" {
+			vlib.GetStats("C12").Discard("no-ascii-form")
+			return nil
+		}
+		g := &gnmi.TypedValue{Value: &gnmi.TypedValue_AsciiVal{AsciiVal: lex(n, c.Vals[0], c.Pad)}}
+		s := utils.FromGNMITypedValue(g)
+		if s == nil {
+			return vlib.Failf(sig("from-gnmi-nil", n, c), "FromGNMITypedValue(%v) returned nil for leaf %s value %q", g, n.Name, want)
+		}
+		out, err := utils.TypedValueToYANGType(s, se)
+		if err != nil {
+			return vlib.Failf(sig("from-gnmi-ascii-refused", n, c), "TypedValueToYANGType(FromGNMITypedValue(%v)) for leaf %s: %v", g, n.Name, err)
+		}
+		stored = out
 	case "gnmi":
 		g := nativeGNMI(n, c.Vals)
 		if g == nil {
@@ -705,7 +721,7 @@ func TestSurvey(t *testing.T) {
 				continue
 			}
 			for _, pad := range []bool{false, true} {
-				for _, in := range []string{"typed", "string", "xml", "gnmi"} {
+				for _, in := range []string{"typed", "string", "xml", "gnmi", "gnmi-ascii"} {
 					if n.Type == "empty" && in == "string" {
 						continue
 					}
